@@ -1,0 +1,594 @@
+//! Hooks for external verification harnesses (cargo feature `verif-hooks`, off by default).
+//!
+//! Nothing in this module is part of the crate's API contract. With the feature on but no
+//! simulation context installed on the current thread, every hook falls through to the
+//! original behaviour.
+//!
+//! Three parts:
+//! - [`SimHandle`]: runs a real `ServiceDaemon` thread in lock-step with a harness, under a
+//!   virtual clock, a simulated interface table, captured egress and injected ingress.
+//! - [`codec`]: plain-data facade over the crate-private DNS wire codec.
+//! - [`component`]: plain-data facade over records, the cache and probe tiebreaking.
+
+use crate::ServiceDaemon;
+use if_addrs::{IfAddr, IfOperStatus, Ifv4Addr, Ifv6Addr, Interface};
+use socket_pktinfo::{PktInfo, PktInfoUdpSocket};
+use std::{
+    cell::RefCell,
+    collections::VecDeque,
+    io,
+    net::{IpAddr, Ipv4Addr, Ipv6Addr, SocketAddr},
+    sync::{
+        atomic::{AtomicU64, Ordering},
+        Arc, Condvar, Mutex, MutexGuard,
+    },
+    time::Duration,
+};
+
+pub mod codec;
+pub mod component;
+
+/// One (interface, address) entry of the simulated interface table.
+#[derive(Clone, Debug, PartialEq, Eq, Hash)]
+pub struct SimIf {
+    pub name: String,
+    pub index: u32,
+    pub ip: IpAddr,
+    pub prefixlen: u8,
+    pub up: bool,
+    pub p2p: bool,
+}
+
+impl SimIf {
+    pub fn new(name: &str, index: u32, ip: IpAddr, prefixlen: u8) -> Self {
+        Self {
+            name: name.to_string(),
+            index,
+            ip,
+            prefixlen,
+            up: true,
+            p2p: false,
+        }
+    }
+
+    pub(crate) fn to_interface(&self) -> Interface {
+        let addr = match self.ip {
+            IpAddr::V4(ip) => {
+                let bits = if self.prefixlen == 0 {
+                    0
+                } else {
+                    u32::MAX << (32 - self.prefixlen.min(32) as u32)
+                };
+                IfAddr::V4(Ifv4Addr {
+                    ip,
+                    netmask: Ipv4Addr::from(bits),
+                    prefixlen: self.prefixlen,
+                    broadcast: None,
+                })
+            }
+            IpAddr::V6(ip) => {
+                let bits = if self.prefixlen == 0 {
+                    0
+                } else {
+                    u128::MAX << (128 - self.prefixlen.min(128) as u32)
+                };
+                IfAddr::V6(Ifv6Addr {
+                    ip,
+                    netmask: Ipv6Addr::from(bits),
+                    prefixlen: self.prefixlen,
+                    broadcast: None,
+                })
+            }
+        };
+        Interface {
+            name: self.name.clone(),
+            addr,
+            index: Some(self.index),
+            oper_status: if self.up {
+                IfOperStatus::Up
+            } else {
+                IfOperStatus::Down
+            },
+            is_p2p: self.p2p,
+            #[cfg(windows)]
+            adapter_name: String::new(),
+        }
+    }
+}
+
+/// A datagram to be delivered to a simulated daemon.
+#[derive(Clone, Debug)]
+pub struct Datagram {
+    pub bytes: Vec<u8>,
+    pub if_index: u32,
+    pub src: SocketAddr,
+    pub dst: IpAddr,
+}
+
+/// A datagram a simulated daemon tried to send.
+#[derive(Clone, Debug)]
+pub struct Egress {
+    /// Virtual time of the send.
+    pub time: u64,
+    /// Loop iteration (gate count) during which it was sent.
+    pub iteration: u64,
+    pub bytes: Vec<u8>,
+    pub if_name: String,
+    pub if_index: Option<u32>,
+    pub src_ip: Option<IpAddr>,
+    pub dest: SocketAddr,
+    pub unicast: bool,
+}
+
+#[derive(Clone, Copy, Debug, PartialEq, Eq)]
+pub enum Phase {
+    Starting,
+    Parked,
+    Running,
+    Exited,
+    Dead,
+}
+
+/// Snapshot of the gate.
+#[derive(Clone, Debug)]
+pub struct GateStatus {
+    pub phase: Phase,
+    pub iteration: u64,
+    /// The earliest timer the daemon asked to be woken for (absolute virtual ms), if any.
+    pub requested_wake: Option<u64>,
+    /// Commands queued in the daemon's channel when it parked.
+    pub pending_cmds: usize,
+    pub panic: Option<String>,
+}
+
+struct SimState {
+    phase: Phase,
+    release: bool,
+    iteration: u64,
+    requested_wake: Option<u64>,
+    pending_cmds: usize,
+    interfaces: Vec<SimIf>,
+    ingress_v4: VecDeque<Datagram>,
+    ingress_v6: VecDeque<Datagram>,
+    egress: Vec<Egress>,
+    jitter: VecDeque<u64>,
+    jitter_default: Option<u64>,
+    panic: Option<String>,
+}
+
+struct SimShared {
+    clock: AtomicU64,
+    seed: u64,
+    state: Mutex<SimState>,
+    cv: Condvar,
+}
+
+impl SimShared {
+    fn lock(&self) -> MutexGuard<'_, SimState> {
+        match self.state.lock() {
+            Ok(g) => g,
+            Err(p) => p.into_inner(),
+        }
+    }
+}
+
+thread_local! {
+    static CTX: RefCell<Option<Arc<SimShared>>> = const { RefCell::new(None) };
+    static THREAD_CLOCK: RefCell<Option<u64>> = const { RefCell::new(None) };
+    static LAST_PANIC: RefCell<Option<String>> = const { RefCell::new(None) };
+}
+
+static PENDING: Mutex<Option<Arc<SimShared>>> = Mutex::new(None);
+static CREATE_LOCK: Mutex<()> = Mutex::new(());
+
+fn ctx() -> Option<Arc<SimShared>> {
+    CTX.with(|c| c.borrow().clone())
+}
+
+// ---------------------------------------------------------------------------------------------
+// Hooks called from the crate (all no-ops without a context).
+// ---------------------------------------------------------------------------------------------
+
+/// `current_time_millis` override.
+pub(crate) fn virtual_now() -> Option<u64> {
+    if let Some(c) = ctx() {
+        return Some(c.clock.load(Ordering::SeqCst));
+    }
+    THREAD_CLOCK.with(|c| *c.borrow())
+}
+
+pub(crate) fn sim_active() -> bool {
+    CTX.with(|c| c.borrow().is_some())
+}
+
+/// Held on the daemon thread's stack; tells the harness how the thread ended.
+pub(crate) struct ThreadGuard(Option<Arc<SimShared>>);
+
+impl Drop for ThreadGuard {
+    fn drop(&mut self) {
+        if let Some(shared) = self.0.take() {
+            let mut st = shared.lock();
+            st.phase = if std::thread::panicking() {
+                Phase::Dead
+            } else {
+                Phase::Exited
+            };
+            drop(st);
+            shared.cv.notify_all();
+            CTX.with(|c| *c.borrow_mut() = None);
+        }
+    }
+}
+
+/// Called at the top of the daemon thread: adopt a pending simulation context, if any.
+pub(crate) fn claim_pending() -> ThreadGuard {
+    let pending = match PENDING.lock() {
+        Ok(mut g) => g.take(),
+        Err(p) => p.into_inner().take(),
+    };
+    if let Some(shared) = pending.as_ref() {
+        fastrand::seed(shared.seed);
+        CTX.with(|c| *c.borrow_mut() = Some(shared.clone()));
+    }
+    ThreadGuard(pending)
+}
+
+/// Called once per loop iteration just before `poll`. Parks until the harness releases one
+/// iteration, then makes `poll` return at once.
+pub(crate) fn gate(
+    earliest_timer: Option<u64>,
+    timeout: Option<Duration>,
+    pending_cmds: usize,
+) -> Option<Duration> {
+    let Some(shared) = ctx() else {
+        return timeout;
+    };
+    let mut st = shared.lock();
+    st.phase = Phase::Parked;
+    st.requested_wake = earliest_timer;
+    st.pending_cmds = pending_cmds;
+    st.iteration += 1;
+    shared.cv.notify_all();
+    while !st.release {
+        st = match shared.cv.wait(st) {
+            Ok(g) => g,
+            Err(p) => p.into_inner(),
+        };
+    }
+    st.release = false;
+    st.phase = Phase::Running;
+    Some(Duration::ZERO)
+}
+
+/// Shadows the socket in `handle_read`: `sock.pktinfo.recv(buf)`.
+pub(crate) struct RecvShim<'a> {
+    pub(crate) pktinfo: RecvInner<'a>,
+}
+
+pub(crate) struct RecvInner<'a> {
+    real: &'a PktInfoUdpSocket,
+    v4: bool,
+}
+
+impl<'a> RecvShim<'a> {
+    pub(crate) fn new(real: &'a PktInfoUdpSocket, v4: bool) -> Self {
+        Self {
+            pktinfo: RecvInner { real, v4 },
+        }
+    }
+}
+
+impl RecvInner<'_> {
+    pub(crate) fn recv(&self, buf: &mut [u8]) -> io::Result<(usize, PktInfo)> {
+        let Some(shared) = ctx() else {
+            return self.real.recv(buf);
+        };
+        let mut st = shared.lock();
+        let q = if self.v4 {
+            &mut st.ingress_v4
+        } else {
+            &mut st.ingress_v6
+        };
+        match q.pop_front() {
+            Some(d) => {
+                // Like a UDP socket: excess bytes are cut off.
+                let n = d.bytes.len().min(buf.len());
+                buf[..n].copy_from_slice(&d.bytes[..n]);
+                Ok((
+                    n,
+                    PktInfo {
+                        if_index: d.if_index as u64,
+                        addr_src: d.src,
+                        addr_dst: d.dst,
+                    },
+                ))
+            }
+            None => Err(io::Error::new(io::ErrorKind::WouldBlock, "sim: empty")),
+        }
+    }
+}
+
+/// Shadows the socket around the `set_multicast_if_*` calls in `send_dns_outgoing_impl`.
+pub(crate) struct McastIfShim<'a>(pub(crate) &'a PktInfoUdpSocket);
+
+impl McastIfShim<'_> {
+    pub(crate) fn set_multicast_if_v4(&self, interface: &Ipv4Addr) -> io::Result<()> {
+        if sim_active() {
+            return Ok(());
+        }
+        self.0.set_multicast_if_v4(interface)
+    }
+
+    pub(crate) fn set_multicast_if_v6(&self, interface: u32) -> io::Result<()> {
+        if sim_active() {
+            return Ok(());
+        }
+        self.0.set_multicast_if_v6(interface)
+    }
+}
+
+/// Records an outgoing datagram. Returns true when the real send must be skipped.
+pub(crate) fn capture(
+    packet: &[u8],
+    if_name: &str,
+    if_index: Option<u32>,
+    src_ip: Option<IpAddr>,
+    dest: SocketAddr,
+    unicast: bool,
+) -> bool {
+    let Some(shared) = ctx() else {
+        return false;
+    };
+    let time = shared.clock.load(Ordering::SeqCst);
+    let mut st = shared.lock();
+    let iteration = st.iteration;
+    st.egress.push(Egress {
+        time,
+        iteration,
+        bytes: packet.to_vec(),
+        if_name: if_name.to_string(),
+        if_index,
+        src_ip,
+        dest,
+        unicast,
+    });
+    true
+}
+
+/// Probe start jitter: from the script when one is present, else what the crate drew.
+pub(crate) fn jitter(drawn: u64) -> u64 {
+    let Some(shared) = ctx() else {
+        return drawn;
+    };
+    let mut st = shared.lock();
+    if let Some(j) = st.jitter.pop_front() {
+        return j;
+    }
+    st.jitter_default.unwrap_or(drawn)
+}
+
+/// Shadows the `if_addrs` crate path inside `my_ip_interfaces_inner`.
+pub(crate) mod if_addrs_shim {
+    pub(crate) fn get_if_addrs() -> std::io::Result<Vec<if_addrs::Interface>> {
+        if let Some(shared) = super::ctx() {
+            let st = shared.lock();
+            return Ok(st.interfaces.iter().map(|i| i.to_interface()).collect());
+        }
+        ::if_addrs::get_if_addrs()
+    }
+}
+
+// ---------------------------------------------------------------------------------------------
+// Harness side.
+// ---------------------------------------------------------------------------------------------
+
+/// Harness-side handle of one simulated daemon.
+#[derive(Clone)]
+pub struct SimHandle {
+    shared: Arc<SimShared>,
+}
+
+impl SimHandle {
+    /// Creates a daemon with the crate's own constructor; its thread adopts a simulation
+    /// context and parks at its first loop iteration before this returns.
+    pub fn spawn(
+        port: u16,
+        interfaces: Vec<SimIf>,
+        start_time: u64,
+        seed: u64,
+    ) -> crate::Result<(SimHandle, ServiceDaemon)> {
+        let _creating = match CREATE_LOCK.lock() {
+            Ok(g) => g,
+            Err(p) => p.into_inner(),
+        };
+        let shared = Arc::new(SimShared {
+            clock: AtomicU64::new(start_time),
+            seed,
+            state: Mutex::new(SimState {
+                phase: Phase::Starting,
+                release: false,
+                iteration: 0,
+                requested_wake: None,
+                pending_cmds: 0,
+                interfaces,
+                ingress_v4: VecDeque::new(),
+                ingress_v6: VecDeque::new(),
+                egress: Vec::new(),
+                jitter: VecDeque::new(),
+                jitter_default: None,
+                panic: None,
+            }),
+            cv: Condvar::new(),
+        });
+        match PENDING.lock() {
+            Ok(mut g) => *g = Some(shared.clone()),
+            Err(p) => *p.into_inner() = Some(shared.clone()),
+        }
+        let daemon = match ServiceDaemon::new_with_port(port) {
+            Ok(d) => d,
+            Err(e) => {
+                if let Ok(mut g) = PENDING.lock() {
+                    *g = None;
+                }
+                return Err(e);
+            }
+        };
+        let handle = SimHandle { shared };
+        {
+            let mut st = handle.shared.lock();
+            while st.phase == Phase::Starting {
+                let (g, _t) = match handle.shared.cv.wait_timeout(st, Duration::from_millis(50)) {
+                    Ok(r) => r,
+                    Err(p) => p.into_inner(),
+                };
+                st = g;
+            }
+        }
+        Ok((handle, daemon))
+    }
+
+    pub fn now(&self) -> u64 {
+        self.shared.clock.load(Ordering::SeqCst)
+    }
+
+    /// Sets the virtual clock. The clock never goes backwards.
+    pub fn set_now(&self, t: u64) {
+        self.shared.clock.fetch_max(t, Ordering::SeqCst);
+    }
+
+    pub fn set_interfaces(&self, interfaces: Vec<SimIf>) {
+        self.shared.lock().interfaces = interfaces;
+    }
+
+    pub fn interfaces(&self) -> Vec<SimIf> {
+        self.shared.lock().interfaces.clone()
+    }
+
+    /// Queues a datagram; it is read by the daemon during its next iteration.
+    pub fn inject(&self, d: Datagram) {
+        let mut st = self.shared.lock();
+        if d.src.is_ipv4() {
+            st.ingress_v4.push_back(d);
+        } else {
+            st.ingress_v6.push_back(d);
+        }
+    }
+
+    pub fn take_egress(&self) -> Vec<Egress> {
+        std::mem::take(&mut self.shared.lock().egress)
+    }
+
+    pub fn push_jitter(&self, v: u64) {
+        self.shared.lock().jitter.push_back(v);
+    }
+
+    pub fn set_jitter_default(&self, v: Option<u64>) {
+        self.shared.lock().jitter_default = v;
+    }
+
+    pub fn status(&self) -> GateStatus {
+        let st = self.shared.lock();
+        GateStatus {
+            phase: st.phase,
+            iteration: st.iteration,
+            requested_wake: st.requested_wake,
+            pending_cmds: st.pending_cmds,
+            panic: st.panic.clone(),
+        }
+    }
+
+    /// Releases exactly one loop iteration and waits until the daemon has parked again,
+    /// exited or died. `drain` is called repeatedly while waiting (the crate's listener
+    /// channels are bounded with blocking sends, so the harness must keep reading them).
+    /// Returns `None` if the daemon neither parked nor ended within `max_wait`.
+    pub fn step(&self, drain: &mut dyn FnMut(), max_wait: Duration) -> Option<GateStatus> {
+        let started = std::time::Instant::now();
+        let mut st = self.shared.lock();
+        if st.phase != Phase::Parked {
+            let phase = st.phase;
+            drop(st);
+            return match phase {
+                Phase::Exited | Phase::Dead => Some(self.status()),
+                _ => None,
+            };
+        }
+        let before = st.iteration;
+        st.release = true;
+        self.shared.cv.notify_all();
+        loop {
+            let done = match st.phase {
+                Phase::Exited | Phase::Dead => true,
+                Phase::Parked => st.iteration > before,
+                _ => false,
+            };
+            if done {
+                break;
+            }
+            let (g, t) = match self.shared.cv.wait_timeout(st, Duration::from_millis(1)) {
+                Ok(r) => r,
+                Err(p) => p.into_inner(),
+            };
+            st = g;
+            if t.timed_out() {
+                drop(st);
+                drain();
+                if started.elapsed() > max_wait {
+                    return None;
+                }
+                st = self.shared.lock();
+            }
+        }
+        drop(st);
+        Some(self.status())
+    }
+}
+
+// ---------------------------------------------------------------------------------------------
+// Thread-local clock for component-level checks, and panic recording.
+// ---------------------------------------------------------------------------------------------
+
+/// Sets (or clears) a virtual clock for the *current* thread; used by component-level checks
+/// that call record/cache code directly.
+pub fn set_thread_clock(t: Option<u64>) {
+    THREAD_CLOCK.with(|c| *c.borrow_mut() = t);
+}
+
+/// Installs a process-wide panic hook that records the message and location of a panic in
+/// the simulation context of the panicking thread (if any) and in a thread-local slot
+/// readable with [`take_last_panic`]. `quiet` suppresses the default stderr report.
+pub fn install_panic_recorder(quiet: bool) {
+    let prev = std::panic::take_hook();
+    std::panic::set_hook(Box::new(move |info| {
+        let msg = if let Some(s) = info.payload().downcast_ref::<&str>() {
+            (*s).to_string()
+        } else if let Some(s) = info.payload().downcast_ref::<String>() {
+            s.clone()
+        } else {
+            "<non-string panic>".to_string()
+        };
+        let loc = info
+            .location()
+            .map(|l| format!("{}:{}", l.file(), l.line()))
+            .unwrap_or_default();
+        let text = format!("{loc}: {msg}");
+        if let Some(shared) = ctx() {
+            // try_lock: the panic may have happened while the state lock is held.
+            if let Ok(mut st) = shared.state.try_lock() {
+                st.panic = Some(text.clone());
+            }
+        }
+        LAST_PANIC.with(|p| {
+            if let Ok(mut p) = p.try_borrow_mut() {
+                *p = Some(text.clone());
+            }
+        });
+        if !quiet {
+            prev(info);
+        }
+    }));
+}
+
+/// Takes the message of the last panic recorded on the current thread.
+pub fn take_last_panic() -> Option<String> {
+    LAST_PANIC.with(|p| p.borrow_mut().take())
+}
